@@ -31,6 +31,12 @@ impl VComp {
         ensures r == self.names().contains(p.text())
     { unimplemented!() }
 
+    // `exists`: in this model the directory holds streams only
+    #[verifier::external_body]
+    pub fn exists<P: VPath>(&self, p: P) -> (r: bool)
+        ensures r == self.names().contains(p.text())
+    { unimplemented!() }
+
     // `create_new_stream`: as create_stream, but refuses a name that already exists
     #[verifier::external_body]
     pub fn create_new_stream<P: VPath>(&mut self, p: P) -> (r: std::io::Result<VStream>)
